@@ -226,6 +226,15 @@ STAGES = {
                 AUTHTYPES='{"NOAUTH", "PLAIN", "AUTODISCOVER"}', AUTHLISTS='{{"PLAIN", "LOGIN"}}')),
             ('port-policy-by-setters', 'Session', cfg(OP='"DialAndSend"', N='1', MAXR='1', BUDGET='1', CAPSETS='{{}}', CLASSES='{"refuse", "p5"}', VARIANTS='{"setters"}',
                 POLICIES='{"mandatory", "opportunistic", "none"}', FALLBACK='{TRUE}', STARTTLSADV='BOOLEAN', HANDSHAKES='{"ok"}')),
+            # a Client that has completed an encrypted, authenticated dial before (against another server), then the scenario
+            ('warm-client', 'Session', cfg(OP='"Dial"', N='1', MAXR='1', BUDGET='0', CAPSETS='{{}}', VARIANTS='{"warmup"}',
+                POLICIES='{"mandatory", "opportunistic", "none"}', STARTTLSADV='BOOLEAN', HOSTKINDS='{"localhost", "other"}', HANDSHAKES='{"ok", "untrusted"}',
+                AUTHTYPES='{"NOAUTH", "PLAIN", "LOGIN", "AUTODISCOVER"}',
+                AUTHLISTS='{{"PLAIN", "LOGIN"}, {"PLAIN", "LOGIN", "CRAM-MD5"}, {"PLAIN", "LOGIN", "CRAM-MD5", "XOAUTH2", "SCRAM-SHA-1", "SCRAM-SHA-256", "SCRAM-SHA-1-PLUS", "SCRAM-SHA-256-PLUS"}}')),
+            # implicit TLS switched on and off again before the dial (SetSSL(true), SetSSL(false)): the policy decides
+            ('ssl-flag-set-and-cleared', 'Session', cfg(OP='"DialAndSend"', N='1', MAXR='1', BUDGET='0', CAPSETS='{{}}', VARIANTS='{"ssltoggle"}',
+                POLICIES='{"mandatory", "opportunistic", "none"}', STARTTLSADV='BOOLEAN', HANDSHAKES='{"ok", "untrusted"}',
+                AUTHTYPES='{"NOAUTH", "PLAIN"}', AUTHLISTS='{{"PLAIN", "LOGIN"}}')),
             # the TLS policy is changed between two dials of the same Client
             ('policy-change-redial', 'Session', cfg(OP='"Send"', N='1', MAXR='1', BUDGET='1', CAPSETS='{{}}', CLASSES='{"p5"}', REDIAL='{TRUE}',
                 POLICIES='{"mandatory", "opportunistic", "none"}', STARTTLSADV='BOOLEAN', HANDSHAKES='{"ok", "untrusted"}')),
@@ -260,6 +269,8 @@ STAGES = {
     'C20': {
         'quick': [
             ('send-2x2-b2-multiline', 'Session', cfg(SHAPES='{"multi"}', CLASSES='{"t4", "p5"}', CAPSETS='{{"ENHANCEDSTATUSCODES"}, {}}')),
+            ('send-2x1-b1-terse-replies', 'Session', cfg(N='2', MAXR='1', BUDGET='1', SHAPES='{"terse", "multiterse"}', CLASSES='{"t4", "p5"}', CAPSETS='{{"ENHANCEDSTATUSCODES"}, {}}')),
+            ('send-1x2-b1-every-code', 'Session', cfg(N='1', BUDGET='1', CLASSES='{"t4", "p5"}', CODESETS='0..99', CAPSETS='{{"ENHANCEDSTATUSCODES"}}')),
             ('send-3x1-b2', 'Session', cfg(N='3', MAXR='1', BUDGET='2', SHAPES='{"lead"}', CLASSES='{"t4", "p5"}', CAPSETS='{{"ENHANCEDSTATUSCODES"}}')),
             ('send-2x2-b2-shapes', 'Session', cfg(SHAPES='{"lead", "later", "none"}', CLASSES='{"t4", "p5"}',
                                                    CAPSETS='{{"ENHANCEDSTATUSCODES"}, {}}')),
